@@ -61,6 +61,20 @@ class Direct:
         return False
 
 
+class AnyOf:
+    """A branch matches when it matches any of the given specs."""
+
+    def __init__(self, *specs, name=None):
+        self.specs = specs
+        self.name = name or " | ".join(s.name for s in specs)
+
+    def call_pats(self):
+        return []
+
+    def matches_expr(self, e, ctx, env=None):
+        return any(s.matches_expr(e, ctx, env) for s in self.specs)
+
+
 class Cmp:
     """Operand-separated comparison: the branch condition is (the result of) a comparison one
     of whose operands derives from every pattern in A and the other from every pattern in B.
@@ -595,7 +609,7 @@ def loop_heads(ctx, body, iter_pats):
     return out
 
 
-def per_iteration(ctx, body, iter_pats, spec, rule, what, skip=None):
+def per_iteration(ctx, body, iter_pats, spec, rule, what, skip=None, must_dominate=True):
     """Within every iteration of the loop over an iterator derived from iter_pats, the
     iteration cannot complete (reach the back edge or an accepting exit) without passing a
     guard for spec."""
@@ -642,7 +656,7 @@ def per_iteration(ctx, body, iter_pats, spec, rule, what, skip=None):
         ctx.evaluations += len(g.switches)
         path, gs = g.unguarded_path(spec)
         # the loop must also lie on every path to an accepting exit
-        on_all = all(body.dominates(nb, a) for a in acc) if acc else True
+        on_all = (all(body.dominates(nb, a) for a in acc) if acc else True) or not must_dominate
         if path is None and on_all:
             ctx.ok(rule, body.path, what, site=body.loc(nb), detail=dict(loop=body.loc(nb), guards=[body.loc(b) for b, _, _ in gs]))
             return True
